@@ -198,7 +198,7 @@ func (c *Ctx) RunSched(sc Sched) {
 		o := sc.Opt
 		o.Trace = true
 		vsync.NewGeneration()
-		vsched.IOPoints = false
+		vsched.IOPoints, vsched.PostStorePoints = false, false
 		bodies, check, _ := sc.Setup()
 		x := vsched.Execute(o, c.Replay.Choices, bodies)
 		v := classify(x, check)
@@ -234,7 +234,7 @@ func (c *Ctx) RunSched(sc Sched) {
 	ex.Deadline = c.TimeUp
 	ex.Setup = func() ([]func(), func(*vsched.Exec) *vsched.Violation) {
 		vsync.NewGeneration()
-		vsched.IOPoints = false
+		vsched.IOPoints, vsched.PostStorePoints = false, false
 		b, chk, out := sc.Setup()
 		return b, func(x *vsched.Exec) *vsched.Violation {
 			v := chk(x)
@@ -323,7 +323,7 @@ func (c *Ctx) gate(sc Sched) string {
 		o := sc.Opt
 		o.Trace = true
 		vsync.NewGeneration()
-		vsched.IOPoints = false
+		vsched.IOPoints, vsched.PostStorePoints = false, false
 		b, chk, out := sc.Setup()
 		x := vsched.Execute(o, prefix, b)
 		chk(x)
